@@ -106,4 +106,11 @@ theorem symm_wf (n : Nat) (rel : Nat → Nat → Bool) : (Families.symm n rel).W
     simp only [Families.symm, Bool.and_eq_true, decide_eq_true_eq] at h
     exact ⟨h.1.1.2, h.1.2⟩
 
+theorem bind_eq_ok' {α β : Type} {x : Outcome α} {f : α → Outcome β} {b : β} (h : (x >>= f) = .ok b) :
+    ∃ a, x = .ok a ∧ f a = .ok b := by
+  cases x with
+  | ok a => exact ⟨a, rfl, h⟩
+  | panic => cases h
+  | outOfFuel => cases h
+
 end Construct
